@@ -10,6 +10,7 @@
 -/
 import Algobra.Gen.Code
 import Algobra.Model.Field
+import Algobra.Model.Auxmath
 import Algobra.Proofs.CodeTies
 import Algobra.Proofs.CodeTies2
 import Algobra.Proofs.CodeTies3
@@ -269,6 +270,119 @@ theorem prime_pow_composed {p a k : Nat} (lookup : Nat → Nat → Nat) (hp1 : 1
       (decide (y = 0))) = Prime.mul p := by
     funext x y; exact CodeTies2Proofs.prime_prod x x y lookup p
   rw [this]; exact prime_pow hp1 hp2 hk
+
+/-! ### 5. `Auxmath.factorize` does not depend on its fuel once `n < 2^fuel` -/
+
+theorem divOut_snd_le (n : Nat) : ∀ p e, (Auxmath.divOut n p e).2 ≤ n := by
+  induction n using Nat.strongRecOn with
+  | _ n ih =>
+    intro p e
+    rw [Auxmath.divOut]
+    by_cases h : p ≤ 1 ∨ n = 0
+    · simp only [h, ↓reduceDIte]; exact Nat.le_refl n
+    · simp only [h, ↓reduceDIte]
+      by_cases hm : n % p = 0
+      · simp only [hm, ↓reduceIte]
+        have hlt : n / p < n := Nat.div_lt_self (by omega) (by omega)
+        exact Nat.le_trans (ih _ hlt p (e + 1)) (Nat.le_of_lt hlt)
+      · simp only [hm, ↓reduceIte]; exact Nat.le_refl n
+
+theorem divOut_snd_half {n p : Nat} (e : Nat) (hp : 2 ≤ p) (hn : 0 < n) (hm : n % p = 0) :
+    (Auxmath.divOut n p e).2 ≤ n / 2 := by
+  rw [Auxmath.divOut]
+  have h : ¬ (p ≤ 1 ∨ n = 0) := by omega
+  simp only [h, ↓reduceDIte, hm, ↓reduceIte]
+  refine Nat.le_trans (divOut_snd_le _ p (e + 1)) ?_
+  exact Nat.div_le_div_left hp (by omega)
+
+theorem divOut_snd_pos (n : Nat) : ∀ p e, 0 < n → 0 < (Auxmath.divOut n p e).2 := by
+  induction n using Nat.strongRecOn with
+  | _ n ih =>
+    intro p e hn
+    rw [Auxmath.divOut]
+    by_cases h : p ≤ 1 ∨ n = 0
+    · rw [dif_pos h]; exact hn
+    · rw [dif_neg h]
+      by_cases hm : n % p = 0
+      · rw [if_pos hm]
+        have hlt : n / p < n := Nat.div_lt_self (by omega) (by omega)
+        have hpos : 0 < n / p := Nat.div_pos (Nat.le_of_dvd hn (Nat.dvd_of_mod_eq_zero hm)) (by omega)
+        exact ih _ hlt p (e + 1) hpos
+      · rw [if_neg hm]; exact hn
+
+theorem factScan_spec (n maxF : Nat) : ∀ k, 6 ≤ k → Auxmath.factScan n maxF k = 0 ∨
+    (2 ≤ Auxmath.factScan n maxF k ∧ n % Auxmath.factScan n maxF k = 0) := by
+  intro k
+  induction h : maxF + 7 - k using Nat.strongRecOn generalizing k with
+  | _ d ih =>
+    intro hk
+    rw [Auxmath.factScan]
+    by_cases h1 : k - 1 ≤ maxF
+    · rw [dif_pos h1]
+      by_cases h2 : n % (k - 1) = 0
+      · rw [if_pos h2]; exact Or.inr ⟨by omega, h2⟩
+      · rw [if_neg h2]
+        by_cases h3 : n % (k + 1) = 0
+        · rw [if_pos h3]; exact Or.inr ⟨by omega, h3⟩
+        · rw [if_neg h3]
+          exact ih (maxF + 7 - (k + 6)) (by omega) (k + 6) rfl (by omega)
+    · rw [dif_neg h1]; exact Or.inl rfl
+
+theorem factorize_zero (f : Nat) : Auxmath.factorize (f + 1) 0 = [(0, 1)] := by
+  simp [Auxmath.factorize]
+
+theorem factorize_fuel_indep_pos (fuel : Nat) : ∀ fuel' n, 1 ≤ n → n < 2 ^ fuel → n < 2 ^ fuel' →
+    Auxmath.factorize fuel n = Auxmath.factorize fuel' n := by
+  induction fuel with
+  | zero =>
+    intro fuel' n hn h h'
+    have : n < 1 := by simpa using h
+    omega
+  | succ f ih =>
+    intro fuel' n hn h h'
+    cases fuel' with
+    | zero =>
+      have : n < 1 := by simpa using h'
+      omega
+    | succ f' =>
+      simp only [Auxmath.factorize]
+      have h0 : n ≠ 0 := by omega
+      by_cases h1 : n = 1
+      · simp only [h1, ↓reduceIte]
+      · simp only [h0, h1, ↓reduceIte]
+        -- the chosen divisor
+        have hp : ∀ p, p = (if n % 2 = 0 then 2 else if n % 3 = 0 then 3
+            else Auxmath.factScan n (Auxmath.boundSqrt n) 6) → p = 0 ∨ (2 ≤ p ∧ n % p = 0) := by
+          intro p hp
+          by_cases h2 : n % 2 = 0
+          · rw [if_pos h2] at hp; subst hp; exact Or.inr ⟨by decide, h2⟩
+          · by_cases h3 : n % 3 = 0
+            · rw [if_neg h2, if_pos h3] at hp; subst hp; exact Or.inr ⟨by decide, h3⟩
+            · rw [if_neg h2, if_neg h3] at hp; subst hp
+              exact factScan_spec n _ 6 (by decide)
+        generalize hpe : (if n % 2 = 0 then 2 else if n % 3 = 0 then 3
+            else Auxmath.factScan n (Auxmath.boundSqrt n) 6) = p
+        rcases hp p hpe.symm with hz | ⟨hp2, hm⟩
+        · simp only [hz, ↓reduceIte]
+        · have hp0 : p ≠ 0 := by omega
+          simp only [hp0, ↓reduceIte]
+          have hhalf := divOut_snd_half 0 hp2 (by omega) hm
+          have hpos := divOut_snd_pos n p 0 (by omega)
+          have hlt : (Auxmath.divOut n p).2 < 2 ^ f := by
+            rw [Nat.pow_succ] at h; omega
+          have hlt' : (Auxmath.divOut n p).2 < 2 ^ f' := by
+            rw [Nat.pow_succ] at h'; omega
+          rw [ih f' _ hpos hlt hlt']
+
+/-- for a word, every fuel from 64 on gives the same factorization -/
+theorem factorize_fuel_64 {fuel n : Nat} (hf : 64 ≤ fuel) (hn : n < 2 ^ 64) :
+    Auxmath.factorize fuel n = Auxmath.factorize 64 n := by
+  by_cases h0 : n = 0
+  · subst h0
+    obtain ⟨f, rfl⟩ : ∃ f, fuel = f + 1 := ⟨fuel - 1, by omega⟩
+    rw [factorize_zero, factorize_zero 63]
+  · exact factorize_fuel_indep_pos fuel 64 n (by omega)
+      (Nat.lt_of_lt_of_le hn (Nat.pow_le_pow_right (by decide) hf)) hn
 
 end CodeTies4Proofs
 end Algobra
